@@ -25,7 +25,7 @@ RULE = ("histories over the 85 concrete kit classes: every ordered pair of concr
         "Non-trivial = the priming history validated at least one record before the query and the query's baseline has both an accepted "
         "and a rejected probe; distinct = distinct (history, query class).")
 ASSUMPTIONS = ["the query's answer is (is_valid, overhang_start, overhang_end, target) or the exception class, per probe record"]
-FLOORS = {"c06_histories": 1500, "c06_baseline_crosschecked": 8, "c06_related_pairs": 100}
+FLOORS = {"c06_histories": 1500, "c06_baseline_crosschecked": 8, "c06_related_pairs": 100, "c06_topology_orders": 1000, "c06_shared_objects": 200}
 MUST_REACH = []
 NEEDS_REGISTRIES = True
 BUDGET_S = {"quick": 900, "thorough": 7200}
@@ -91,6 +91,17 @@ def cases(tier, seed):
         out.append({"kind": "dynamic-shapes", "from": j, "count": 8, "seed": seed})
     for reg in ["ytk", "cidar", "ecoflex", "plant"]:
         out.append({"kind": "registry-history", "reg": reg, "queries": names if tier == "thorough" else names[::3], "seed": seed})
+    # one class, one text, handed over in its four forms (CircularRecord, plain record without annotation, declared circular,
+    # declared linear) in several orders: what the class saw first must not matter
+    for j in range(0, len(names), 6):
+        out.append({"kind": "topology-order", "classes": names[j:j + 6], "seed": seed})
+    # the very same record objects are shown to class A and then to class B
+    rng3 = gen.rng_for(seed, PROP, "shared-object")
+    so = []
+    for a in names:
+        so += [[a, b] for b in rng3.sample([n for n in names if n != a], 3 if tier == "quick" else 24)]
+    for j in range(0, len(so), 20):
+        out.append({"kind": "shared-object", "pairs": so[j:j + 20], "seed": seed})
     sample = names if tier == "thorough" else names[:: max(1, len(names) // 16)]
     for j in range(0, len(sample), 4):
         out.append({"kind": "crosscheck", "classes": sample[j:j + 4], "seed": seed})
@@ -159,6 +170,31 @@ def answer(seed, cls, texts):
                 ans.append(["raised", type(ex).__name__])
         out.append(ans)
     return out
+
+
+def forms(s):
+    """one plasmid text as the four kinds of record a caller may hold"""
+    from Bio.Seq import Seq
+    from moclo.record import CircularRecord
+    from Bio.SeqRecord import SeqRecord
+
+    return [CircularRecord(Seq(s), "p"), SeqRecord(Seq(s), "p"), SeqRecord(Seq(s), "p", annotations={"topology": "circular"}),
+            SeqRecord(Seq(s), "p", annotations={"topology": "linear"})]
+
+
+def ask(cls, rec):
+    e = cls(rec)
+    try:
+        if not e.is_valid():
+            return [False]
+        ans = [True, str(e.overhang_start()), str(e.overhang_end())]
+    except Exception as ex:
+        return ["raised", type(ex).__name__]
+    try:
+        ans.append(str(e.target_sequence().seq))
+    except Exception as ex:
+        ans.append("target raised " + type(ex).__name__)
+    return ans
 
 
 def stale(cls):
@@ -469,6 +505,38 @@ def execute(mat, ctx):
                 got = in_child(lambda: {"answers": answer(seed, Q, texts[::-1])[::-1], "stale": stale(Q)})
                 judge(ctx, seed, [n], n, got, alone, extra="same-class-validated-other-records-before:reverse-order")
         ctx.sample({"kind": "self-history", "classes": mat["classes"][:3], "records_per_class": 13}, cap=1)
+    elif kind == "topology-order":
+        orders = [[3, 0, 1, 2], [3, 2, 1, 0], [1, 3, 0, 2], [2, 1, 0, 3], [0, 3, 2, 1]]
+        for n in mat["classes"]:
+            Q = gen.class_by_name(n)
+            for ti, t in enumerate(probe_texts(seed, Q)[:3]):
+                alone = [in_child(lambda k=k: ask(Q, forms(t)[k])) for k in range(4)]
+                for o in orders:
+                    def run():
+                        f = forms(t)
+                        got = {}
+                        for k in o:
+                            got[k] = ask(Q, f[k])
+                        return {"answers": [got[k] for k in range(4)], "stale": stale(Q)}
+
+                    ctx.count("c06_topology_orders")
+                    judge(ctx, seed, [n], n, in_child(run), alone, extra="same-text-in-another-form-validated-before:order-%s" % "".join(map(str, o)))
+        ctx.sample({"kind": kind, "classes": mat["classes"][:2], "forms": ["CircularRecord", "plain", "plain circular", "plain linear"]}, cap=1)
+    elif kind == "shared-object":
+        for a, b in mat["pairs"]:
+            A, B = gen.class_by_name(a), gen.class_by_name(b)
+            tb = probe_texts(seed, B)[:4]
+            base = in_child(lambda: [ask(B, r) for t in tb for r in forms(t)])
+
+            def run():
+                recs = [r for t in tb for r in forms(t)]
+                for r in recs:
+                    ask(A, r)
+                return {"answers": [ask(B, r) for r in recs], "stale": stale(B)}
+
+            ctx.count("c06_shared_objects")
+            judge(ctx, seed, [a], b, in_child(run), base, extra="same-record-object-validated-by-another-class-before")
+        ctx.sample({"kind": kind, "pair": mat["pairs"][0]}, cap=1)
     elif kind == "dynamic-shapes":
         # user-defined classes related to kit classes in the ways a shared cache could confuse:
         #  (a) "twin": same cutter and signature as a kit part but the other role (module <-> vector);
